@@ -3,7 +3,7 @@ From Coq Require Import List ZArith String.
 Local Close Scope string_scope.
 Require Import Avro.Model.Base Avro.Model.Prim Avro.Model.Schema Avro.Model.Container.
 Require Import Avro.Model.Writer.
-Require Import Avro.Proofs.ContainerP Avro.Proofs.FileP Avro.Proofs.FuelP.
+Require Import Avro.Proofs.ContainerP Avro.Proofs.FileP Avro.Proofs.FuelP Avro.Proofs.HeaderGenP.
 Import ListNotations.
 Open Scope list_scope.
 Open Scope Z_scope.
@@ -127,3 +127,37 @@ Example C07_ex :
   read_blocks (fun x => Some x) rr (fun i => if Nat.eqb i 1 then Some 42 else None) 5 sync 0 body = (2%nat, FCb 42) /\
   read_blocks (fun x => Some x) rr (fun _ => None) 5 sync 0 (firstn 21 body ++ [8] ++ skipn 22 body) = (3%nat, FErr).
 Proof. cbv zeta. repeat split; vm_compute; reflexivity. Qed.
+
+(* Headers of other writers: the metadata map laid out as any number of blocks
+   of any number of entries (application metadata next to avro.schema and
+   avro.codec, in any order).  The header reader accepts every such header and
+   returns exactly its entries — under a key, the value of the last entry written
+   with it — its sync marker, and the rest of the file untouched. *)
+Theorem C07_any_conforming_header : forall sync bl rest,
+  len sync = 16 -> Forall block_ok bl ->
+  read_header (gen_header bl sync ++ rest) = Some ({| h_meta := set_blocks [] bl; h_sync := sync |}, rest).
+Proof. intros sync bl rest Hy Hb. exact (header_ok_gen sync Hy bl Hb rest). Qed.
+Print Assumptions C07_any_conforming_header.
+
+Theorem C07_header_lookup : forall es m k,
+  meta_get (set_entries m es) k =
+  match find (fun e => bytes_eqb k (fst e)) (rev es) with
+  | Some e => Some (snd e)
+  | None => meta_get m k
+  end.
+Proof. exact meta_get_set_entries. Qed.
+Print Assumptions C07_header_lookup.
+
+(* non-vacuity: two metadata blocks, the key 'a' written twice *)
+Example C07_header_ex :
+  let sync := repeat 7 16 in
+  let bl := [[([97], [1]); ([98], [2; 3])]; [([97], [9])]] in
+  Forall block_ok bl /\
+  match read_header (gen_header bl sync ++ [42]) with
+  | Some (h, rest) => (meta_get (h_meta h) [97], meta_get (h_meta h) [98], rest) = (Some [9], Some [2; 3], [42])
+  | None => False
+  end.
+Proof.
+  split; [|vm_compute; reflexivity].
+  repeat constructor; try discriminate; unfold len, two63; cbn; lia.
+Qed.
